@@ -15,7 +15,10 @@ from .util import call_name
 def _cli_eval(ctx: Ctx) -> Evaluator:
     def pol(fi: FunctionInfo, depth: int) -> bool:
         if fi.module.name == 'hpl.cli':
-            return default_inline(fi, depth)
+            # helpers of the command line are looked through, also when they run over a table (`for flags, options in ARGUMENTS`)
+            return default_inline(fi, depth) or (fi.cls is None and fi.name != 'main' and depth <= 3
+                                                 and not any(isinstance(x, (ast.While, ast.With, ast.Try, ast.Yield, ast.YieldFrom)) for x in ast.walk(fi.node))
+                                                 and sum(1 for x in ast.walk(fi.node) if isinstance(x, ast.stmt)) <= 30)
         # a serialisation helper kept next to the AST classes (it is the one that calls attrs.asdict)
         return fi.cls is None and default_inline(fi, depth) and any(isinstance(n, ast.Call) and ast.unparse(n.func).split('.')[-1] == 'asdict' for n in ast.walk(fi.node))
     return Evaluator(ctx.model, inline=pol)
@@ -409,6 +412,12 @@ def C3(ctx: Ctx) -> RuleResult:
                 dest = next((k.value.value for k in n_.keywords if k.arg == 'dest' and isinstance(k.value, ast.Constant)), None)
                 if '--output' in names_ or dest == 'output':
                     has_opt = True    # (which values it admits is the format test's business: main:json-option)
+    # the same from the evaluated calls (options registered from a table)
+    for o_ in _main_outcomes(ctx)[1]:
+        for e_ in o_.effects:
+            if isinstance(e_, Call) and isinstance(e_.func, Attr) and e_.func.name == 'add_argument':
+                if Const('--output') in e_.args or e_.kw('dest') == Const('output'):
+                    has_opt = True
     if not has_opt:
         r.fail('parse_arguments:output-option', 'no command line option sets args["output"] (-o/--output with the choice "json"): the JSON document can never be requested', pa.relpath)
     # closure of field types
